@@ -28,6 +28,10 @@ claimed = {
    text="Trace invariant over the simulated storage's read trace for the canonical key-pinning WHERE shapes (literal on either side), alone, with an opaque conjunct on either side, and in pairs; Get keys inside the pinned set/region, at most one cursor key beyond it per poll and last, nothing below the region start, point reads (no cursor Next) for =/IN, no reads for clauses unsatisfiable on their face. quick samples; thorough enumerates all literal choices per shape over the alphabet {a,b,c}.",
    note="Closed bounds; one look-ahead key per poll; cursor creation/seek without reads tolerated; union of conjunct regions. The trace is a deterministic function of (statement, store, batch, mode); the simulator contributes the vantage point and generated/history-built stores.",
    tech="deterministic simulation: invariant monitor over the simulated disk's read trace"),
+ "C19": dict(cat="exploration", ref="§4 C19",
+   text="Seeded schedule search: 2..16 client goroutines running real kvql code under a token scheduler that decides who runs at every storage call (pre-drawn, replayable schedule; random switch probabilities and directed schedules), three store topologies, binary built with -race and the token hand-off invisible to the detector, so any unsynchronised conflicting access to library state by two clients is reported deterministically; each statement's result compared with its solo-schedule result.",
+   note="amd64 TSO; yield granularity = one storage call; sync.Pool inside fmt/regexp may add hidden edges; knobs fixed before clients start. Race reports without kvql frames are harness defects (exit 2).",
+   tech="deterministic simulation: seeded interleaving search with a race-invisible token scheduler, race detector armed, solo-run oracle"),
 }
 BUILT = set(claimed)
 
